@@ -36,10 +36,38 @@ READER_MOD = 'regions.io.fits.read'
 def _funcs(m):
     ser = m.registered('serialize', 'fits')
     wmod = m.modules[ser.module]
-    row_writer = None
-    for fi in wmod.functions.values():
+    # the row writer is the first function on the serialiser's call path that takes one region and (possibly through
+    # helpers) builds the row record
+    def builds_row(fi, seen=()):
         if any(isinstance(n, ast.Call) and call_name(n) == '_RegionData' for n in ast.walk(fi.node)):
-            row_writer = fi
+            return True
+        for c in calls_in(fi.node):
+            for g in m.resolve_call(fi, c) or ():
+                if g.module == fi.module and g.qualname not in seen and g is not fi and builds_row(g, seen + (fi.qualname,)):
+                    return True
+        return False
+
+    def required(fi):
+        a = fi.node.args
+        return len(a.args) - len(a.defaults)
+    row_writer = None
+    frontier, seen_q = [ser], {ser.qualname}
+    while frontier and row_writer is None:
+        nxt = []
+        for fi in frontier:
+            callees = [g for c in calls_in(fi.node) for g in (m.resolve_call(fi, c) or ())]
+            # functions passed by reference (map(f, xs), key=f) are callees too
+            callees += [wmod.functions[n.id] for n in ast.walk(fi.node) if isinstance(n, ast.Name) and n.id in wmod.functions
+                        and isinstance(n.ctx, ast.Load)]
+            for g in callees:
+                if True:
+                    if g.module != ser.module or g.qualname in seen_q:
+                        continue
+                    seen_q.add(g.qualname)
+                    if required(g) == 1 and builds_row(g) and row_writer is None:
+                        row_writer = g
+                    nxt.append(g)
+        frontier = nxt
     par = m.registered('parse', 'fits')
     rmod = m.modules[par.module]
     row_reader = None
@@ -264,23 +292,21 @@ def r3(ctx):
 def r4(ctx):
     m = ctx.model
     ser, row_writer, par, row_reader, rmod = _funcs(m)
-    # sky regions: the serialiser warns and goes on with the next region — no row writer call sees a sky region
-    ok_sky = False
-    pm = parents(ser.node)
-    for c in calls_in(ser.node):
-        cs = m.resolve_call(ser, c)
-        if cs and cs[0].qualname == row_writer.qualname:
-            tests = enclosing_tests(ser.node, c, pm)
-            blk_guard = False
-            # either the call sits under `not isinstance(region, SkyRegion)` or a preceding branch on it leaves the iteration
-            for t, pol in tests:
-                if 'SkyRegion' in norm(t) and 'isinstance' in norm(t) and not pol:
-                    blk_guard = True
-            for st in stmts_of(ser.node):
-                if isinstance(st, ast.If) and 'SkyRegion' in norm(st.test) and 'isinstance' in norm(st.test) \
-                        and st.body and isinstance(st.body[-1], (ast.Continue, ast.Return, ast.Raise)):
-                    blk_guard = True
-            ok_sky = blk_guard
+    # sky regions: the serialiser warns and goes on with the next region — decided on the value: a list holding one sky
+    # region yields no row (the table builder is not called with a row for it)
+    wmod = m.modules[ser.module]
+    seen_rows = []
+
+    def rec_table(e, a_, k_):
+        seen_rows.append(a_[0] if a_ else None)
+        return Obj('QTable', {}, 'table')
+    table_fns = [g for c in calls_in(ser.node) for g in (m.resolve_call(ser, c) or ())
+                 if g.module == ser.module and g.qualname != row_writer.qualname and len(g.node.args.args) == 1]
+    evs = Evaluator(m, hooks={g.qualname: rec_table for g in table_fns})
+    sky = evs.symbolic_instance(m.cls('CircleSkyRegion'), 'skyregion')
+    outs = evs.run(ser, [Tup((sky,), 'list')], {})
+    rows_given = [r for r in seen_rows if not (isinstance(r, Tup) and not r.items)]
+    ok_sky = bool(outs.returns) and not rows_given and not outs.raises
     if ok_sky:
         ctx.ok(f'{ser.qualname.split(":")[1]}:sky', 'sky regions: warn, continue')
     else:
@@ -514,14 +540,28 @@ def r9(ctx):
     m = ctx.model
     ser, row_writer, par, row_reader, rmod = _funcs(m)
     wmod = m.modules[ser.module]
-    col_fn = None
-    for fi in wmod.functions.values():
+    # the column builder: the one-argument function that (possibly through a helper) pads cells and turns a list of row
+    # arrays into a Quantity column
+    def pads(fi, seen=()):
         if any((call_name(c) or '').endswith('.pad') for c in calls_in(fi.node)):
-            col_fn = fi
-    ctx.need(col_fn is not None, 'fits write', 'column builder not found')
-    ev = Evaluator(m)
+            return True
+        return any(g.module == fi.module and g.qualname not in seen and g is not fi and pads(g, seen + (fi.qualname,))
+                   for c in calls_in(fi.node) for g in (m.resolve_call(fi, c) or ()))
     q0 = mark_quantity(sp.Symbol('rotang0', real=True))
     q1 = mark_quantity(sp.Symbol('rotang1', real=True))
+    cands = []
+    for fi in wmod.functions.values():
+        a_ = fi.node.args
+        if len(a_.args) - len(a_.defaults) == 1 and pads(fi):
+            try:
+                t_ = Evaluator(m).call(fi, [Tup((Tup((q0,), 'array'), Tup((q1,), 'array')), 'list')], {})
+            except AnalysisError:
+                continue
+            if isinstance(t_, App) and t_.name.endswith('Quantity'):
+                cands.append(fi)
+    ctx.need(len(cands) == 1, 'fits write', f'column builder not identified ({[c.qualname for c in cands]})')
+    col_fn = cands[0]
+    ev = Evaluator(m)
     t = ev.call(col_fn, [Tup((Tup((q0,), 'array'), Tup((q1,), 'array')), 'list')], {})
     construct = col_fn.qualname.split(':')[1]
     ok = isinstance(t, App) and t.name.endswith('Quantity') and len(t.args) == 1 and isinstance(t.args[0], Tup) and \
@@ -624,13 +664,31 @@ def r12(ctx):
     m = ctx.model
     mod = next((mi for n, mi in m.modules.items() if n.endswith('io.fits.read')), None)
     ctx.need(mod is not None, 'regions.io.fits.read', 'module not found')
-    cand = [f for f in mod.functions.values() if len(f.node.args.args) == 2 and any(
-        isinstance(n, ast.Attribute) and n.attr == 'isdigit' for n in ast.walk(f.node))]
-    ctx.need(len(cand) == 1, 'fits read', f'column accessor not identified ({[c.qualname for c in cand]})')
-    f = cand[0]
     from ..vg import DictV, sym
     row = DictV([{'R': Tup((sym('a'), sym('b'), sym('c')), 'list'), 'X': Tup((sym('x'),), 'list'),
                   'Y': Tup((sym('y'),), 'list'), 'ROTANG': Tup((sym('r'),), 'list')}])
+    # the accessor is the (row, column name) function the shape-parameter reader maps over the column list
+    gsp = [g for g in mod.functions.values() if any(isinstance(n, ast.Name) and n.id == 'shape_columns' for n in ast.walk(g.node))
+           and len(g.node.args.args) == 3]
+    cand = []
+    for g in gsp:
+        for c in calls_in(g.node):
+            for h in m.resolve_call(g, c) or ():
+                if h.module == mod.name and len(h.node.args.args) == 2 and h not in cand:
+                    cand.append(h)
+    if len(cand) > 1:
+        # several two-argument helpers: the accessor is the one that answers with a cell element for ('R1')
+        keep = []
+        for h in cand:
+            try:
+                o_ = Evaluator(m).run(h, [row, Const('R1')], {})
+            except AnalysisError:
+                continue
+            if [show(v, 40) for _, v in o_.returns] == ['b']:
+                keep.append(h)
+        cand = keep or cand
+    ctx.need(len(cand) == 1, 'fits read', f'column accessor not identified ({[c.qualname for c in cand]})')
+    f = cand[0]
     bad = []
     for col, want in COLUMN_PROBES:
         ev = Evaluator(m)
